@@ -582,7 +582,7 @@ func c09InitModel(init int) model.Frame {
 }
 
 func c09BigFrame() qframe.QFrame {
-	n := 60
+	n := 320 // more than 50 rows (String truncation) and JSON/CSV output well above 4 KiB
 	is := make([]int, n)
 	ss := make([]*string, n)
 	fs := make([]float64, n)
@@ -679,7 +679,25 @@ func checkCongruence(a qframe.QFrame, opIdx int) *core.Failure {
 		if x.Err != nil {
 			continue
 		}
-		if strings.HasPrefix(op.name, "Sort") || strings.HasPrefix(op.name, "Distinct") || strings.HasPrefix(op.name, "Aggregate") {
+		if strings.HasPrefix(op.name, "Sort") {
+			// ties may come out in any order: instead of comparing the two results, each must be a
+			// permutation of its input ordered by the keys (C03's predicate, here on derived frames)
+			ords := []ordSpec{{Col: "k"}}
+			if op.name != "Sort(k)" {
+				ords = []ordSpec{{Col: "e", Reverse: true, NullLast: true}, {Col: "i"}}
+			}
+			for which, pair := range [][2]qframe.QFrame{{a, x}, {t, y}} {
+				in, out := model.Observe(pair[0]), model.Observe(pair[1])
+				in.AdoptMeta(oa)
+				out.AdoptMeta(oa)
+				if f := checkSorted(in, out, ords); f != nil {
+					f.Msg = fmt.Sprintf("%s on %s: ", op.name, []string{"the derived frame", "its New-rebuilt twin"}[which]) + f.Msg
+					return f
+				}
+			}
+			continue
+		}
+		if strings.HasPrefix(op.name, "Distinct") || strings.HasPrefix(op.name, "Aggregate") {
 			// row order is (partly) unspecified: normalise by a total sort on all columns
 			var ord []qframe.Order
 			for _, n := range x.ColumnNames() {
@@ -739,8 +757,9 @@ func c09Run(ctx *core.Ctx) {
 				ctx.Exec(pc, func() *core.Failure { return checkEqualsPair(qf, t) })
 				ctx.Outcome("equals/twin-" + mut)
 			}
-			// congruence under every frame operation
-			if len(ff.path) <= pairDepth {
+			// congruence under every frame operation (one level deeper than the pair check: a derived
+			// frame may carry hidden state that its New-rebuilt twin does not have)
+			if len(ff.path) <= pairDepth+1 {
 				for oi, op := range ops {
 					if op.on != mFrame || strings.Contains(op.name, "View") || strings.HasPrefix(op.name, "To") || op.name == "String" || strings.HasPrefix(op.name, "Equals") || strings.HasPrefix(op.name, "GroupBy") {
 						continue
@@ -801,7 +820,7 @@ func c09Run(ctx *core.Ctx) {
 	}
 	if ctx.Mine() {
 		ctx.Exec(obsCase{Big: true}, func() *core.Failure { return checkObservers(c09BigFrame()) })
-		ctx.Outcome("observers/60rows")
+		ctx.Outcome("observers/320rows")
 	}
 }
 
@@ -827,7 +846,7 @@ func init() {
 			c09BigFrame()
 		},
 		Level: "model_checking",
-		Rule: "frames = every non-error frame reachable from 4 initial frames by <= D steps of the C01 operation alphabet (arbitrary physical indexes), plus every physical permutation of the 5-row and 4-row initial frames and a 60-row frame. Per frame: Len, ColumnNames/Types/TypeMap/Contains, view Len/Slice vs ItemAt, ToCSV (parsed by a reference RFC 4180 parser), ToJSON (token stream), String (fixed-width parse) all compared with the typed views; " +
+		Rule: "frames = every non-error frame reachable from 4 initial frames by <= D steps of the C01 operation alphabet (arbitrary physical indexes), plus every physical permutation of the 5-row and 4-row initial frames and a 320-row frame (output above 4 KiB). Per frame: Len, ColumnNames/Types/TypeMap/Contains, view Len/Slice vs ItemAt, ToCSV (parsed by a reference RFC 4180 parser), ToJSON (token stream), String (fixed-width parse) all compared with the typed views; " +
 			"Equals vs cell-wise model equality and symmetry on the frame's New-rebuilt twin and six mutated twins (one cell / name / type / column order / enum declared in another order with the same cells / enum codes preserved but strings swapped), on every ordered pair of frames within depth P, and congruence (Equal twins give Equal results) under every frame operation. " +
 			"Non-trivial/distinct = distinct frame observations; distinct pairs of different frames that are Equal.",
 		Assumptions: []string{
